@@ -187,7 +187,7 @@ def judge(ctx: core.Ctx, case: dict[str, Any]) -> None:
                 both_nonliquid = (not r_s.ok and not r_s.is_liquid_error) or (not r_a.ok and not r_a.is_liquid_error)
                 ctx.evaluations += 1
                 ctx.violation(
-                    "render-differs:" + classify_diff(r_s, r_a),
+                    "render-differs:" + classify_diff(r_s, r_a, templates),
                     f"render -> {r_s.brief()} but render_async -> {r_a.brief()}",
                     {"sync": r_s.brief(), "async": r_a.brief(), "non_liquid": both_nonliquid},
                 )
@@ -260,7 +260,13 @@ def gen_inherit_case(rng) -> dict[str, Any]:
             "ntags": 2, "analyze": rng.random() < 0.7, "analysis_method": rng.choice(ANALYSIS_METHODS), "include_partials": rng.random() < 0.8, "family": "inherit"}
 
 
-def classify_diff(r_s, r_a) -> str:
+def classify_diff(r_s, r_a, templates=None) -> str:
+    if "RecursionError" in (r_s.err_class, r_a.err_class):
+        # one twin ran out of Python stack where the other did not (the async renderer needs more frames per level): keyed by the
+        # construct that recurses, not by the error the other twin happened to end with
+        text = " ".join((templates or {}).values())
+        fam = "extends-blocks" if "{% extends" in text or "{%- extends" in text else "partials" if ("{% include" in text or "{% render" in text) else "other"
+        return f"python-stack-exhausted-on-one-side:{fam}"
     if r_s.ok and r_a.ok:
         return "output"
     if r_s.ok:
